@@ -95,9 +95,11 @@ class C21(Prop):
                   "leaves the tree and every object of any other location untouched, so answers for other locations are "
                   "identical (every state reachable by a history of registrations, relations, invalidations); "
                   "registrations and relations remove nothing, invalidations add nothing; the chosen source is a reported "
-                  "PRIMARY copy. Not proved as one refinement theorem: the full 'exactly when' characterisation (the "
-                  "frame of a registration and the same-location frame of an invalidation are only exercised); a "
-                  "refuted witness documents the duplicate-object known finding. The model is tied to /repo by replaying "
+                  "PRIMARY copy; and a refinement theorem: on histories of registrations (locations without wrapping) "
+                  "and invalidations, availability equals the history-based specification 'some registration of the path "
+                  "or of a path beneath it on that location is not followed by an invalidation of the path or an ancestor "
+                  "on that location'. With relations and wrapped locations the exact characterisation is only exercised "
+                  "(related copies share their fate); a refuted witness documents the duplicate-object known finding. The model is tied to /repo by replaying "
                   "random histories on the real DefaultDataManager and on the model and comparing every answer after "
                   "every operation; a property oracle written from the text judges the real answers.")
     LEVEL_NOTE = ("Trusted: Coq kernel + vm_compute; the hand-written model DataReg/Model.v (tied to the code only by the "
@@ -301,6 +303,7 @@ class C21(Prop):
         maybe = {}          # (key, path) -> time of the last invalidation that may legitimately have taken it along
         uni = universe(c)
         regobjs = [(key(x[1]), x[2]) for x in c["ops"] if x[0] == "reg"]
+        regtimes = [i for i, x in enumerate(c["ops"], start=1) if x[0] == "reg"]
         revived = {}        # (key, path) -> time of the last relation whose destination this copy was
         prev = {}
         for t, (op, ob) in enumerate(zip(c["ops"], o["ops"]), start=1):
@@ -376,6 +379,16 @@ class C21(Prop):
                                 f"after op {t} {op}: {q} is not available on {K}")
                     return ("lost", f"after op {t} {op}: {q} registered on {K} at op {tc}, not invalidated since, "
                                     f"but not available")
+            # "... or related to such a registration": right after a relation, a copy that is still good shows up
+            # under the other path (demanded only when nothing since its registration may have invalidated it)
+            if k == "rel":
+                (ka, pa), (kb, pb) = regobjs[op[1]], regobjs[op[2]]
+                if max(maybe.get((kb, pb), 0), direct.get((kb, pb), 0)) < regtimes[op[2]] \
+                        and not any((it[0], it[1]) == kb for it in snap.get(pa, [])):
+                    return ("relation", f"after op {t} {op}: {pa} is not reported on {kb} although related to {pb} there")
+                if max(maybe.get((ka, pa), 0), direct.get((ka, pa), 0)) < created.get((ka, pa), 0) \
+                        and not any((it[0], it[1]) == ka for it in snap.get(pb, [])):
+                    return ("relation", f"after op {t} {op}: {pb} is not reported on {ka} although related to {pa} there")
             # isolation
             if k == "inv":
                 K = key(op[1])
